@@ -782,6 +782,29 @@ MUTANTS = [
             let pushed_chunk = if !chunk.is_empty() {
                 let group_start = self.inner().pdi_start.start_address;
                 let start_addr = group_start + total_bytes_sent as u32;""")]},
+    {"id": "c08-extend-on-device-flag", "property": "C08", "expect": "C08.reconf|extend-only-own-mapping",
+     "edits": [("src/subdevice/configuration.rs", "        let fmmu_config = if extend_existing && fmmu_config.enable {", "        let _ = extend_existing;\n        let fmmu_config = if fmmu_config.enable {")]},
+    {"id": "c08-flag-always-true", "property": "C08", "expect": "C08.reconf|extend-only-own-mapping",
+     "edits": [("src/subdevice/configuration.rs", "        let mut fmmu_configured = false;\n", "        let mut fmmu_configured = true;\n")]},
+    {"id": "n-c08-clear-on-pre-op", "property": "C08", "neutral": True, "also": ["C10"],
+     "edits": [("src/subdevice/configuration.rs", "        let fmmu_config = if extend_existing && fmmu_config.enable {", "        let _ = extend_existing;\n        let fmmu_config = if fmmu_config.enable {"),
+               ("src/subdevice_group/mod.rs", """        self.transition_to(maindevice, SubDeviceState::PreOp).await
+""", """        let self_ = self.transition_to(maindevice, SubDeviceState::PreOp).await?;
+
+        // FMMU mappings are configured again on the way to SAFE-OP: start from blank registers
+        for subdevice in self_.inner().subdevices.iter() {
+            for fmmu_idx in 0..16u8 {
+                Command::fpwr(
+                    subdevice.configured_address(),
+                    RegisterAddress::fmmu(fmmu_idx).into(),
+                )
+                .send(maindevice, [0u8; 16])
+                .await?;
+            }
+        }
+
+        Ok(self_)
+""")]},
     {"id": "n-c08-rename", "property": "C08", "neutral": True,
      "edits": [("src/subdevice/configuration.rs", "        *global_offset = global_offset.increment_byte_aligned(sm_bit_len);", "        let advanced = global_offset.increment_byte_aligned(sm_bit_len);\n        *global_offset = advanced;")]},
     {"id": "n-c11-log-in-builder", "property": "C11", "neutral": True,
